@@ -122,7 +122,7 @@ fn gen_san_pos_case(cur: &mut Cursor) -> Value {
     json!({"fen": p.fen(), "src": src})
 }
 
-fn utf8_render(p: &RefPos, m: &RefMove, san: &str) -> String {
+pub fn utf8_render(p: &RefPos, m: &RefMove, san: &str) -> String {
     // glyphs (white set) for piece letters, no '=' before the promotion piece
     let glyph = |c: char| match c {
         'N' => '♘',
